@@ -18,7 +18,7 @@ use graphql_lang_types as gl;
 use intern::string_key::Intern;
 use proptest::prelude::*;
 use refgql::*;
-use serde_json::{json, Value as Json};
+use serde_json::Value as Json;
 use vcore::{Args, Fail, Report};
 
 #[derive(Clone, Copy, PartialEq, Eq, Debug)]
@@ -246,7 +246,6 @@ fn run_case(report: &Report, entry: Entry, case: &Case) -> Result<(), Fail> {
     let mut labels = feats.labels();
     labels.push(entry.name());
     report.case(if nontrivial { Some(text.as_str()) } else { None }, &labels);
-    report.sample(entry.name(), 2, || json!({"text": text}));
     if let Err(f) = self_check(DocumentKind::TypeSystem, &case.doc, &toks, &text) {
         return Err(attach_input(f, entry.name(), &text));
     }
@@ -265,7 +264,6 @@ fn run_case(report: &Report, entry: Entry, case: &Case) -> Result<(), Fail> {
             if nontrivial { Some(mtext.as_str()) } else { None },
             &[if compared { "mutant:accepted-by-both" } else { "mutant:rejected-or-excluded" }],
         );
-        report.sample(if compared { "mutant-accepted" } else { "mutant-rejected" }, 2, || json!({"text": mtext}));
     }
     Ok(())
 }
@@ -304,11 +302,12 @@ pub fn run(args: &Args) {
 
     report.run_regressions(|input| run_input(&report, input));
 
-    let workers = vcore::num_workers();
+    let workers = 8; // fixed: the result must not depend on the machine
     for (entry, name, cases) in [
         (Entry::Schema, "parse_schema", args.tier.pick(4000u32, 120_000)),
         (Entry::Extensions, "parse_schema_extensions", args.tier.pick(4000u32, 120_000)),
     ] {
+        crate::c29::samples(&report, entry.name(), &case_strategy(entry, 4));
         let found = vcore::run_prop_parallel(
             &report,
             name,
